@@ -92,7 +92,7 @@ Theorem stems_of_descendant (t : snode) (sa : bool) (r1 r2 : SplitResult) (more 
 Proof.
   intros Hs Hn Hu Hq Hf Hp. unfold lru_stems_from_parsed.
   assert (hostname r2 = hostname r1) as Hh by (unfold hostname; rewrite Hn; reflexivity).
-  rewrite Hs, Hn, Hh, Hu, Hq, Hf, Hp. cbv zeta.
+  unfold auth_of. rewrite Hs, Hn, Hh, Hu, Hq, Hf, Hp. cbv zeta.
   rewrite split_c_app. rewrite tl_app_nonempty by apply split_c_nonempty. rewrite map_app.
   cbn [app]. rewrite !app_nil_r.
   eexists. rewrite <- !app_assoc. reflexivity.
@@ -177,66 +177,115 @@ Proof.
   - change (tag "p:" l) with (112 :: 58 :: l). rewrite index_tagged by discriminate. rewrite IH. reflexivity.
 Qed.
 
-(* the round trip on parsed urls without userinfo, for any way the port splitter cuts the netloc into a host and
-   an optional port that re-join to the netloc (what the splitter does is tied to the source by the regex pin and
-   the correspondence) *)
-Theorem stems_round_trip (t : snode) (r : SplitResult) (host : str) (oport : option str) :
-  rcut [64] (netloc r) = None ->
-  re_split PORT_SPLITTER_f PORT_SPLITTER PORT_SPLITTER_g (netloc r) None
+(* the pieces of the netloc *)
+Lemma rcut_some (sep s a b : str) : rcut sep s = Some (a, b) -> s = a ++ sep ++ b.
+Proof.
+  unfold rcut. destruct (cut (length s) (rev sep) (rev s) []) as [[x y]|] eqn:E; [|discriminate].
+  intros [= <- <-]. apply cut_some in E. destruct E as (pre & Hs & Hx). cbn [rev app] in Hx. subst x.
+  apply (f_equal (@rev N)) in Hs. rewrite rev_involutive in Hs. rewrite Hs.
+  rewrite !rev_app_distr, rev_involutive, <- app_assoc. reflexivity.
+Qed.
+
+Lemma splitn1_two (sep s u p : str) : splitn sep s 1 = [u; p] -> s = u ++ sep ++ p.
+Proof.
+  unfold splitn. cbn [split_fuel].
+  destruct (cut (length s) sep s []) as [[a b]|] eqn:E; [|discriminate].
+  assert (split_fuel (length s) sep b (Some 0%nat) = [b]) as -> by (destruct (length s); reflexivity).
+  intros [= <- <-]. apply cut_some in E. destruct E as (pre & Hs & Ha). cbn [rev app] in Ha. subst a. exact Hs.
+Qed.
+
+Lemma auth_of_rejoin nl ou ow hp :
+  auth_of nl = (ou, ow, hp) ->
+  nl = (match ou, ow with
+        | None, None => []
+        | u, w => oget u ++ (match w with Some x => [58] ++ x | None => [] end) ++ [64]
+        end) ++ hp.
+Proof.
+  unfold auth_of. destruct (rcut [64] nl) as [[auth rest]|] eqn:E.
+  - apply rcut_some in E. destruct (mem 58 auth).
+    + destruct (splitn [58] auth 1) as [|u [|p [|x l]]] eqn:S; intros [= <- <- <-]; cbn [oget]; try (rewrite E, <- ?app_assoc; reflexivity).
+      apply splitn1_two in S. rewrite E, S, <- !app_assoc. reflexivity.
+    + intros [= <- <- <-]. cbn [oget]. rewrite E, <- !app_assoc. reflexivity.
+  - intros [= <- <- <-]. reflexivity.
+Qed.
+
+(* the round trip on parsed urls, userinfo included, for any way the port splitter cuts the host part of the netloc
+   into a host and an optional port that re-join to it (what the splitter does is tied to the source by the regex
+   pin and the correspondence) *)
+Theorem stems_round_trip (t : snode) (r : SplitResult) (ou ow : option str) (hp host : str) (oport : option str) :
+  auth_of (netloc r) = (ou, ow, hp) ->
+  re_split PORT_SPLITTER_f PORT_SPLITTER PORT_SPLITTER_g hp None
     = Some host :: (match oport with Some p => [Some p] | None => [] end) ->
-  netloc r = host ++ (match oport with Some p => 58 :: p | None => [] end) ->
+  hp = host ++ (match oport with Some p => 58 :: p | None => [] end) ->
   is_special_host host = false ->
   (path r = [] \/ exists p, path r = 47 :: p) ->
   lru_to_url_stems (lru_stems_from_parsed t r false) = Ok (urlunsplit r).
 Proof.
-  intros Hu Hsp Hnl Hspecial Hpath.
-  unfold lru_to_url_stems, lru_stems_from_parsed. rewrite Hu, Hsp. cbv zeta.
+  intros Hauth Hsp Hhp Hspecial Hpath.
+  pose proof (auth_of_rejoin _ _ _ _ Hauth) as Hnl.
+  unfold lru_to_url_stems, lru_stems_from_parsed. rewrite Hauth, Hsp. cbv zeta.
   assert (map oget (Some host :: match oport with Some p => [Some p] | None => [] end)
           = host :: match oport with Some p => [p] | None => [] end) as -> by (destruct oport; reflexivity).
-  rewrite Hspecial. rewrite !app_nil_r.
-  (* scheme stem *)
+  rewrite Hspecial.
   set (hosts := map (tag "h:") (rev (split_c 46 host))).
   set (paths := map (tag "p:") (tl (split_c 47 (path r)))).
   set (qs := match query r with [] => [] | q => [tag "q:" q] end).
   set (fs := match fragment r with [] => [] | f => [tag "f:" f] end).
+  set (us := match ou with Some u => [tag "u:" u] | None => [] end).
+  set (ws := match ow with Some p => [tag "w:" p] | None => [] end).
   assert (forall ix, index_stems (match scheme r with [] => [] | s => [tag "s:" s] end ++
                                   match (host :: match oport with Some p => [p] | None => [] end) with [_; port] => [tag "t:" port] | _ => [] end ++
-                                  hosts ++ paths ++ qs ++ fs) ix
+                                  hosts ++ paths ++ qs ++ fs ++ us ++ ws) ix
                      = Ok {| i_s := match scheme r with [] => i_s ix | s => Some s end;
                              i_t := match oport with Some p => Some p | None => i_t ix end;
                              i_h := fold_left hstep (rev (split_c 46 host)) (i_h ix);
                              i_p := fold_left pstep (tl (split_c 47 (path r))) (i_p ix);
                              i_q := match query r with [] => i_q ix | q => Some q end;
                              i_f := match fragment r with [] => i_f ix | f => Some f end;
-                             i_u := i_u ix; i_w := i_w ix |}) as Hidx.
+                             i_u := match ou with Some u => Some u | None => i_u ix end;
+                             i_w := match ow with Some p => Some p | None => i_w ix end |}) as Hidx.
   { intros ix.
-    assert (forall ix0, index_stems (qs ++ fs) ix0
+    assert (forall ix0, index_stems (us ++ ws) ix0
+              = Ok {| i_s := i_s ix0; i_t := i_t ix0; i_h := i_h ix0; i_p := i_p ix0; i_q := i_q ix0; i_f := i_f ix0;
+                      i_u := match ou with Some u => Some u | None => i_u ix0 end;
+                      i_w := match ow with Some p => Some p | None => i_w ix0 end |}) as Huw.
+    { intros ix0. unfold us, ws. destruct ou as [u|]; destruct ow as [w|]; cbn [app].
+      - change (tag "u:" u) with (117 :: 58 :: u). rewrite index_tagged by discriminate.
+        change (tag "w:" w) with (119 :: 58 :: w). rewrite index_tagged by discriminate. destruct ix0; reflexivity.
+      - change (tag "u:" u) with (117 :: 58 :: u). rewrite index_tagged by discriminate. destruct ix0; reflexivity.
+      - change (tag "w:" w) with (119 :: 58 :: w). rewrite index_tagged by discriminate. destruct ix0; reflexivity.
+      - destruct ix0; reflexivity. }
+    assert (forall ix0, index_stems (qs ++ fs ++ us ++ ws) ix0
               = Ok {| i_s := i_s ix0; i_t := i_t ix0; i_h := i_h ix0; i_p := i_p ix0;
                       i_q := match query r with [] => i_q ix0 | q => Some q end;
-                      i_f := match fragment r with [] => i_f ix0 | f => Some f end; i_u := i_u ix0; i_w := i_w ix0 |}) as Hqf.
+                      i_f := match fragment r with [] => i_f ix0 | f => Some f end;
+                      i_u := match ou with Some u => Some u | None => i_u ix0 end;
+                      i_w := match ow with Some p => Some p | None => i_w ix0 end |}) as Hqf.
     { intros ix0. unfold qs, fs.
       destruct (query r) as [|qc qr]; destruct (fragment r) as [|fc fr]; cbn [app].
-      - destruct ix0; reflexivity.
-      - change (tag "f:" (fc :: fr)) with (102 :: 58 :: fc :: fr). rewrite index_tagged by discriminate. destruct ix0; reflexivity.
-      - change (tag "q:" (qc :: qr)) with (113 :: 58 :: qc :: qr). rewrite index_tagged by discriminate. destruct ix0; reflexivity.
+      - rewrite Huw. destruct ix0; reflexivity.
+      - change (tag "f:" (fc :: fr)) with (102 :: 58 :: fc :: fr). rewrite index_tagged by discriminate. rewrite Huw. destruct ix0; reflexivity.
+      - change (tag "q:" (qc :: qr)) with (113 :: 58 :: qc :: qr). rewrite index_tagged by discriminate. rewrite Huw. destruct ix0; reflexivity.
       - change (tag "q:" (qc :: qr)) with (113 :: 58 :: qc :: qr). rewrite index_tagged by discriminate.
-        change (tag "f:" (fc :: fr)) with (102 :: 58 :: fc :: fr). rewrite index_tagged by discriminate. destruct ix0; reflexivity. }
-    assert (forall ix0, index_stems (hosts ++ paths ++ qs ++ fs) ix0
+        change (tag "f:" (fc :: fr)) with (102 :: 58 :: fc :: fr). rewrite index_tagged by discriminate. rewrite Huw. destruct ix0; reflexivity. }
+    assert (forall ix0, index_stems (hosts ++ paths ++ qs ++ fs ++ us ++ ws) ix0
               = Ok {| i_s := i_s ix0; i_t := i_t ix0; i_h := fold_left hstep (rev (split_c 46 host)) (i_h ix0);
                       i_p := fold_left pstep (tl (split_c 47 (path r))) (i_p ix0);
                       i_q := match query r with [] => i_q ix0 | q => Some q end;
-                      i_f := match fragment r with [] => i_f ix0 | f => Some f end; i_u := i_u ix0; i_w := i_w ix0 |}) as Hhp.
+                      i_f := match fragment r with [] => i_f ix0 | f => Some f end;
+                      i_u := match ou with Some u => Some u | None => i_u ix0 end;
+                      i_w := match ow with Some p => Some p | None => i_w ix0 end |}) as Hhp'.
     { intros ix0. unfold hosts, paths. rewrite index_hosts, index_paths, Hqf. reflexivity. }
     destruct (scheme r) as [|sc sr]; destruct oport as [p|]; cbn [app].
-    - change (tag "t:" p) with (116 :: 58 :: p). rewrite index_tagged by discriminate. rewrite Hhp. destruct ix; reflexivity.
-    - rewrite Hhp. destruct ix; reflexivity.
+    - change (tag "t:" p) with (116 :: 58 :: p). rewrite index_tagged by discriminate. rewrite Hhp'. destruct ix; reflexivity.
+    - rewrite Hhp'. destruct ix; reflexivity.
     - change (tag "s:" (sc :: sr)) with (115 :: 58 :: sc :: sr). rewrite index_tagged by discriminate.
-      change (tag "t:" p) with (116 :: 58 :: p). rewrite index_tagged by discriminate. rewrite Hhp. destruct ix; reflexivity.
-    - change (tag "s:" (sc :: sr)) with (115 :: 58 :: sc :: sr). rewrite index_tagged by discriminate. rewrite Hhp. destruct ix; reflexivity. }
+      change (tag "t:" p) with (116 :: 58 :: p). rewrite index_tagged by discriminate. rewrite Hhp'. destruct ix; reflexivity.
+    - change (tag "s:" (sc :: sr)) with (115 :: 58 :: sc :: sr). rewrite index_tagged by discriminate. rewrite Hhp'. destruct ix; reflexivity. }
   rewrite Hidx. cbn [bind]. unfold url_of_index, lidx0. cbn [i_s i_t i_h i_p i_q i_f i_u i_w].
   (* the host *)
   rewrite hfold_none by (intros E; apply (f_equal (@rev str)) in E; rewrite rev_involutive in E; cbn in E; eapply split_c_nonempty; exact E).
-  rewrite rev_involutive, join_split_c. cbn [oget app].
+  rewrite rev_involutive, join_split_c. cbn [oget].
   (* the path *)
   assert (match fold_left pstep (tl (split_c 47 (path r))) None with Some p => 47 :: p | None => [] end = path r) as ->.
   { destruct Hpath as [E|[p E]]; rewrite E.
@@ -244,5 +293,5 @@ Proof.
     - unfold split_c. cbn [split_c_go]. rewrite N.eqb_refl. cbn [tl rev].
       rewrite pfold_none by apply split_c_go_nonempty. fold (split_c 47 p). rewrite join_split_c. reflexivity. }
   f_equal. destruct r as [sch nl pth q f]. cbn [scheme netloc path query fragment] in *.
-  subst nl. destruct sch, q, f, oport; cbn [oget]; rewrite ?app_nil_r; reflexivity.
+  subst nl hp. destruct sch, q, f, oport, ou, ow; cbn [oget]; rewrite <- ?app_assoc, ?app_nil_r; reflexivity.
 Qed.
